@@ -47,6 +47,14 @@ OBLIGATIONS = [
     "Grog.C12.only_selected_run_c11",
     "Grog.C12.selected_all_complete",
     "Grog.C12.select_eq_closure_parsed",
+    # alias chains of any length (continuation round; motivated by seeded C12-m11)
+    "Grog.C12.resolveFrom_isTarget",
+    "Grog.C12.resolve_target",
+    "Grog.C12.resolveFrom_alias_step",
+    "Grog.C12.resolveFrom_mono",
+    "Grog.C12.alias_of_rejected_not_root",
+    "Grog.C12.alias_of_incompatible_not_root",
+    "Grog.C12.alias_chain_filtered_witness",
 ]
 PROP_MODULES = ["GrogModel.Props.C12", "GrogModel.Props.Compose"]
 ASSUMPTIONS = [
